@@ -1,0 +1,16 @@
+//go:build verif
+
+package cidprimary
+
+// Machine-checked contracts for this package (comment-only; read by the gsv
+// verification-condition generator under /verif). Guarded by the build tag
+// `verif`, so no ordinary build ever sees this file.
+
+// C16: lock discipline ("guarded by").
+//@ type CIDPrimary
+//@   guarded_by nextPool, outstandingWork, length : poolLk read poolLk.R
+//@   guarded_by curPool : flushLock & poolLk read flushLock | poolLk.R
+//@   guarded_by writer : flushLock
+
+//@ func (cp *CIDPrimary) flushBlock(key []byte, value []byte) (work types.Work, err error)  property C16
+//@   holds cp.flushLock
